@@ -1,12 +1,17 @@
 import LyModel.Sib.RbInvLemmas
+import LyModel.Sib.RbRefineChange
+import LyModel.Props.C04
+import LyModel.Sib.RbMergeLemmas
 /-!
-# C04, stage 2 — the red-black tree behind a system-ordered (leaf-)list (`tree_data_sorted.c`), insertion
+# C04, stage 2 — the red-black tree behind a system-ordered (leaf-)list (`tree_data_sorted.c`), insertion and removal
 
 `Rb.insert` mirrors `rb_insert_node` + `rb_insert_color` case by case (same rotations, same recolourings: the shapes are
 compared with the real tree by the white-box harness).  The theorems tie it to the sibling-list model: the in-order
 sequence of the tree after an insertion is the instance block after `Sib.insertNode` (`sins` = behind every key that is
-≤ the new one), and the red-black invariants hold after every insertion.  Removal (`rb_remove`, `rb_remove_color`) is
-NOT modelled: the harness checks in-order = sibling order and the red-black invariants on the real tree after every op.
+≤ the new one), and the red-black invariants hold after every insertion.  `Rb.remove` mirrors `rb_remove` +
+`rb_remove_color` the same way (Sib/RbDel.lean; shapes compared after every op of insert/unlink scripts, harness op `rbs`):
+the in-order sequence loses exactly the removed position, the invariants are kept, and both hold along every interleaving
+of insertions and removals (`rb_reachable_ins_del`), also with the `lyds_tree` life cycle around it (`lyds_reachable`).
 -/
 namespace LyModel.Props.C04Rb
 open LyModel LyModel.Sib LyModel.Sib.Rb
@@ -19,14 +24,12 @@ theorem rb_inorder_insert {α : Type} (gt : α → α → Bool)
     inorder (Rb.insert gt x t) = sins (fun a b => !gt a b) x (inorder t) :=
   inorder_insert gt trans x t hs
 
-/-- the comparison the sibling-list model orders system-ordered instances by (`Key.le`, i.e. the type plugin's `sort`
-    callback), as `rb_compare(d, x) > 0` -/
-def keyGt (d x : Node) : Bool := !(d.key.le x.key)
+/-! `keyGt d x = !(d.key.le x.key)` (Sib/RbReach.lean): the comparison the sibling-list model orders system-ordered
+   instances by (`Key.le`, i.e. the type plugin's `sort` callback), as `rb_compare(d, x) > 0`. -/
 
 /-- non-vacuity (audit): hypothesis `trans` holds for the model's REAL key order (numeric and `strcmp` keys) -/
-theorem keyGt_trans (a b c : Node) : keyGt a b = false → keyGt b c = false → keyGt a c = false := by
-  simp only [keyGt, Bool.not_eq_false']
-  exact Key.le_trans a.key b.key c.key
+theorem keyGt_trans (a b c : Node) : keyGt a b = false → keyGt b c = false → keyGt a c = false :=
+  Sib.keyGt_trans a b c
 
 /-- a tree of seven string-keyed list instances (with one equal key), built by the insertion itself -/
 def auT : T Node :=
@@ -85,5 +88,227 @@ example : inorder ([5, 3, 8, 3, 4, 9, 1].foldl (fun t x => Rb.insert (fun d y =>
 example : shape (fun (k : Int) => toString k)
     ([5, 3, 8, 3, 4].foldl (fun t x => Rb.insert (fun d y => decide (d > y)) x t) (T.nil : T Int)) =
     ["B5", "B3", "R3", ".", ".", "R4", ".", ".", "B8", ".", "."] := by decide
+
+/-! ## removal -/
+
+/-- `rb_remove` + `rb_remove_color` of the red-black node at in-order position `i` (the node `rb_find` returns for the `i`-th
+    instance): the in-order sequence afterwards is the old one with exactly that position deleted — for EVERY tree (no
+    balance or order hypothesis: the rotations and recolourings of the fix-up never reorder) -/
+theorem rb_inorder_remove {α : Type} (t : T α) (i : Nat) : inorder (Rb.remove i t) = (inorder t).eraseIdx i :=
+  inorder_remove t i
+
+/-- equal black heights, no red node with a red child, black root — kept by every removal (at any position; a position
+    beyond the end removes nothing) -/
+theorem rb_remove_isRB {α : Type} (i : Nat) (t : T α) (h : IsRB t) : IsRB (Rb.remove i t) :=
+  remove_isRB i t h
+
+/-- non-vacuity (audit): on the seven-node tree `auT` — removing the root (two children: the successor `"x"` takes its
+    place), a black leaf (black height repaired by the fix-up) and the first of the two equal keys -/
+example : (inorder (Rb.remove 4 auT)).map (·.id) = [6, 2, 4, 5, 3, 7] ∧ IsRB (Rb.remove 4 auT) ∧
+    (inorder (Rb.remove 0 auT)).map (·.id) = [2, 4, 5, 1, 3, 7] ∧ IsRB (Rb.remove 0 auT) ∧
+    (inorder (Rb.remove 1 auT)).map (·.id) = [6, 4, 5, 1, 3, 7] :=
+  ⟨by decide, rb_remove_isRB _ _ (rb_reachable keyGt _), by decide, rb_remove_isRB _ _ (rb_reachable keyGt _), by decide⟩
+
+/-- the shapes: 1..7 inserted in order give `B2 (B1) (R4 (B3) (B6 R5 R7))`; removing the black leaf `1` meets the RED sibling
+    `4`: rotate (`4` black on top, `2` red), then the new sibling `3` has black nephews and a red parent: `3` red, `2` black —
+    exactly the walk of `rb_remove_color` (the same tokens the white-box harness prints) -/
+example : shape (fun (k : Int) => toString k)
+    (Rb.remove 0 ([1, 2, 3, 4, 5, 6, 7].foldl (fun t x => Rb.insert (fun d y => decide (d > y)) x t) (T.nil : T Int))) =
+    ["B4", "B2", ".", "R3", ".", ".", "B6", "R5", ".", ".", "R7", ".", "."] := by decide
+
+/-! `RbOp α` = `.ins x` (`rb_insert_node` of a new instance) | `.del i` (`rb_remove_node` of the instance at position `i`);
+   `rbStep gt t op` = `Rb.insert gt x t` / `Rb.remove i t` (what the C code does to the tree);
+   `seqStep gt l op` = `sins (≤) x l` / `l.eraseIdx i` (what the edit means for the sorted-stable instance list: a new instance
+   goes behind every instance `≤` it, an unlinked one disappears, nothing else moves) — Sib/RbReach.lean -/
+
+/-- EVERY tree reachable from a valid one by any interleaving of insertions and removals is a valid red-black tree, its
+    in-order sequence is the instance list maintained by sorted-stable insertion and deletion, and that list is sorted —
+    for every comparison whose `≤` (`rb_compare(a, b) <= 0`) is total and transitive -/
+theorem rb_reachable_ins_del {α : Type} (gt : α → α → Bool)
+    (total : ∀ a b, gt a b = false ∨ gt b a = false)
+    (trans : ∀ a b c, gt a b = false → gt b c = false → gt a c = false)
+    (ops : List (RbOp α)) (t : T α) (h : IsRB t) (hs : (inorder t).Pairwise (fun a b => gt a b = false)) :
+    IsRB (ops.foldl (rbStep gt) t) ∧
+    inorder (ops.foldl (rbStep gt) t) = ops.foldl (seqStep gt) (inorder t) ∧
+    (inorder (ops.foldl (rbStep gt) t)).Pairwise (fun a b => gt a b = false) := by
+  induction ops generalizing t with
+  | nil => exact ⟨h, rfl, hs⟩
+  | cons o r ih =>
+    simp only [List.foldl_cons]
+    cases o with
+    | ins x =>
+      have hi : inorder (Rb.insert gt x t) = sins (fun a b => !gt a b) x (inorder t) := inorder_insert gt trans x t hs
+      have hs' : (inorder (Rb.insert gt x t)).Pairwise (fun a b => gt a b = false) := by
+        rw [hi]
+        have := sins_sorted (fun a b => !gt a b) (by intro a b; simpa using total a b)
+          (by intro a b c; simpa using trans a b c) x (inorder t) (by simpa using hs)
+        simpa using this
+      have := ih (Rb.insert gt x t) (insert_isRB gt x t h) hs'
+      simpa only [rbStep, seqStep, hi] using this
+    | del i =>
+      have hi : inorder (Rb.remove i t) = (inorder t).eraseIdx i := inorder_remove t i
+      have hs' : (inorder (Rb.remove i t)).Pairwise (fun a b => gt a b = false) := by
+        rw [hi]; exact hs.sublist (List.eraseIdx_sublist ..)
+      have := ih (Rb.remove i t) (remove_isRB i t h) hs'
+      simpa only [rbStep, seqStep, hi] using this
+
+theorem keyGt_total (a b : Node) : keyGt a b = false ∨ keyGt b a = false := Sib.keyGt_total a b
+
+/-- non-vacuity (audit): from the empty tree with the model's real key order; 9 edits with removals at the front (the
+    leader), in the middle and of an equal key -/
+def auOps : List (RbOp Node) :=
+  [.ins ⟨1, none, .int 5⟩, .ins ⟨2, none, .int 3⟩, .ins ⟨3, none, .int 8⟩, .ins ⟨4, none, .int 3⟩, .del 0, .ins ⟨5, none, .int 4⟩,
+   .ins ⟨6, none, .int 9⟩, .del 2, .ins ⟨7, none, .int 1⟩, .del 1, .ins ⟨8, none, .int 8⟩]
+
+example : IsRB (auOps.foldl (rbStep keyGt) T.nil) ∧
+    (inorder (auOps.foldl (rbStep keyGt) T.nil)).map (·.id) = [7, 5, 3, 8, 6] :=
+  ⟨(rb_reachable_ins_del keyGt keyGt_total keyGt_trans auOps T.nil ⟨trivial, trivial, rfl⟩ List.Pairwise.nil).1, by decide⟩
+
+/-! ## the `lyds_tree` metadata around the tree (`lyds_insert`, `lyds_unlink`) -/
+
+/-! `Lyds` (Sib/RbDel.lean) = the tree the `lyds_tree` metadata of the first instance points to + the instance count;
+   `Lyds.insert` = `lyds_insert` (no tree with one instance; built from the instance present when the second arrives),
+   `Lyds.unlink` = `lyds_unlink` (`rb_remove_node`; the last instance takes the metadata and the tree with it).
+   `LydsOk s l` (Sib/RbReach.lean): `s.n = l.length`, `IsRB s.tree`, and either there is no tree and at most one instance, or
+   `inorder s.tree = l`;  `lydsStep gt (s, l) op` = both components edited (`.del i` with `i` beyond the list: no-op). -/
+
+/-- every history of insertions and unlinks of instances, from no instance at all, keeps `LydsOk` and the sibling order
+    sorted: the lazily created tree (`lyds_additionally_create_rb_tree` with the second instance), every `rb_insert_node`,
+    every `rb_remove_node` — including the one of the leader, after which the root pointer belongs to the next instance —
+    and the disposal with the last instance -/
+theorem lyds_reachable {α : Type} (gt : α → α → Bool)
+    (total : ∀ a b, gt a b = false ∨ gt b a = false)
+    (trans : ∀ a b c, gt a b = false → gt b c = false → gt a c = false)
+    (ops : List (RbOp α)) :
+    LydsOk (ops.foldl (lydsStep gt) (Lyds.empty, [])).1 (ops.foldl (lydsStep gt) (Lyds.empty, [])).2 ∧
+    (ops.foldl (lydsStep gt) (Lyds.empty, [])).2.Pairwise (fun a b => gt a b = false) :=
+  lyds_run_ok gt total trans ops (Lyds.empty, []) ⟨rfl, ⟨trivial, trivial, rfl⟩, Or.inl ⟨rfl, Nat.zero_le _⟩⟩ List.Pairwise.nil
+
+/-- non-vacuity (audit): the same 11 edits through the life cycle; the tree is absent with one instance, present after -/
+example : size ((auOps.take 1).foldl (lydsStep keyGt) (Lyds.empty, [])).1.tree = 0 ∧
+    (inorder (auOps.foldl (lydsStep keyGt) (Lyds.empty, [])).1.tree).map (·.id) = [7, 5, 3, 8, 6] ∧
+    LydsOk (auOps.foldl (lydsStep keyGt) (Lyds.empty, [])).1 (auOps.foldl (lydsStep keyGt) (Lyds.empty, [])).2 :=
+  ⟨by decide, by decide, (lyds_reachable keyGt keyGt_total keyGt_trans auOps).1⟩
+
+/-! ## the sibling-list invariant with the CONCRETE sorting tree (refinement of `C04.inv_step_unlink` / `C04.inv_reachable`)
+
+`Sib.unlinkNode` and `Sib.insertNode` abstract the sorting tree of a system-ordered (leaf-)list to its in-order sequence,
+the block of instances in the sibling list.  `CSibs` (Sib/RbRefine.lean) carries the tree along: `sibs` = the sibling list
+with its hash table as in `C04`, `lyds` = the `Lyds` record of the system-ordered (leaf-)list `x`; `cstep` edits `sibs` by
+`Sib.step` and `lyds` by `Lyds.insert keyGt (leader) n` when an instance of `x` is inserted and by
+`Lyds.unlink (position of the node inside the block)` when one is unlinked; `block x l` = the instances of `x` in `l`. -/
+
+/-- `lyd_unlink` at the red-black level: if the tree lists the instances of `x` (`LydsOk`), then after unlinking ANY node —
+    an instance of `x` (the leader included: the record then belongs to the next instance), or any other node — the tree
+    that `rb_remove_node` leaves lists exactly the instances of `x` in the new sibling list, and is a valid red-black tree -/
+theorem unlink_refines (S : Schema) (cx : Cx) (x : SRef) (hx : (S x).sorted = true) (c : CSibs) (id : Nat)
+    (h : Inv S cx c.sibs) (href : LydsOk c.lyds (block x c.sibs.nodes)) :
+    (cstep S cx true x c (.unlink id)).sibs = unlinkNode S cx c.sibs id ∧
+    LydsOk (cstep S cx true x c (.unlink id)).lyds (block x (unlinkNode S cx c.sibs id).nodes) :=
+  ⟨rfl, cstep_ok S cx true x hx c (.unlink id) h trivial rfl href⟩
+
+/-- every history of `lyd_insert_node` / `lyd_unlink` / `lyd_insert_before` / `lyd_insert_after` from a canonical list whose
+    tree lists the instances: the sibling component is the run of `C04.inv_reachable`, it is canonical, and the concrete tree
+    still lists exactly the instances of `x`, is a valid red-black tree, and exists iff … (`LydsOk`) -/
+theorem inv_reachable_rb (S : Schema) (cx : Cx) (fixed : Bool) (x : SRef) (hx : (S x).sorted = true) (ops : List Op) (c : CSibs)
+    (h : Inv S cx c.sibs) (href : LydsOk c.lyds (block x c.sibs.nodes))
+    (hok : HistOk S cx fixed c.sibs ops) (hc : ∀ o ∈ ops, isChange o = false) :
+    (crun S cx fixed x c ops).sibs = runOps S cx fixed c.sibs ops ∧
+    Inv S cx (crun S cx fixed x c ops).sibs ∧
+    LydsOk (crun S cx fixed x c ops).lyds (block x (crun S cx fixed x c ops).sibs.nodes) :=
+  ⟨crun_sibs S cx fixed x ops c, crun_ok S cx fixed x hx ops c h hok hc href⟩
+
+/-- non-vacuity (audit): a sibling list under a container — system-ordered leaf-list `x = ⟨0, 1⟩`, a leaf, a second
+    system-ordered list — nine edits: five instances of `x` (the tree appears with the second), the leader unlinked (the
+    record passes to the next instance), a middle one unlinked, foreign nodes inserted and unlinked in between -/
+def rfS : Schema := fun r => match r.idx with | 0 => .list .sys | 1 => .leaflist .sys | _ => .leaf
+def rfCx : Cx := { nested := true, top := false, nsch := fun _ => 4 }
+def rfOps : List Op :=
+  [.insert ⟨1, some ⟨0, 1⟩, .int 5⟩, .insert ⟨2, some ⟨0, 2⟩, .str []⟩, .insert ⟨3, some ⟨0, 1⟩, .int 3⟩,
+   .insert ⟨4, some ⟨0, 0⟩, .str [97]⟩, .insert ⟨5, some ⟨0, 1⟩, .int 8⟩, .insert ⟨6, some ⟨0, 1⟩, .int 3⟩, .unlink 3,
+   .insert ⟨7, some ⟨0, 1⟩, .int 4⟩, .unlink 2, .unlink 7, .insert ⟨8, some ⟨0, 0⟩, .str [98]⟩]
+
+theorem rfOps_ok : HistOk rfS rfCx true ⟨[], none⟩ rfOps := C04.histOkB_sound (by decide)
+
+example : let c := crun rfS rfCx true ⟨0, 1⟩ ⟨⟨[], none⟩, Lyds.empty⟩ rfOps
+    c.sibs.nodes.map (·.id) = [4, 8, 6, 1, 5] ∧ (inorder c.lyds.tree).map (·.id) = [6, 1, 5] ∧
+    Inv rfS rfCx c.sibs ∧ LydsOk c.lyds (block ⟨0, 1⟩ c.sibs.nodes) :=
+  ⟨by decide, by decide,
+   (inv_reachable_rb rfS rfCx true ⟨0, 1⟩ rfl rfOps ⟨⟨[], none⟩, Lyds.empty⟩ (C04.inv_init _ _ (by decide))
+     ⟨rfl, ⟨trivial, trivial, rfl⟩, Or.inl ⟨rfl, Nat.zero_le _⟩⟩ rfOps_ok (by decide)).2⟩
+
+/-- non-vacuity (audit): `unlink_refines` on the state after the first six edits (instances 3, 3, 5, 8 of `x`): the LEADER
+    (id 3) leaves — the tree loses exactly it and stays a red-black tree -/
+example : let c := crun rfS rfCx true ⟨0, 1⟩ ⟨⟨[], none⟩, Lyds.empty⟩ (rfOps.take 6)
+    (inorder c.lyds.tree).map (·.id) = [3, 6, 1, 5] ∧
+    (inorder (cstep rfS rfCx true ⟨0, 1⟩ c (.unlink 3)).lyds.tree).map (·.id) = [6, 1, 5] ∧
+    LydsOk (cstep rfS rfCx true ⟨0, 1⟩ c (.unlink 3)).lyds (block ⟨0, 1⟩ (unlinkNode rfS rfCx c.sibs 3).nodes) := by
+  have h := inv_reachable_rb rfS rfCx true ⟨0, 1⟩ rfl (rfOps.take 6) ⟨⟨[], none⟩, Lyds.empty⟩ (C04.inv_init _ _ (by decide))
+    ⟨rfl, ⟨trivial, trivial, rfl⟩, Or.inl ⟨rfl, Nat.zero_le _⟩⟩ (C04.histOkB_sound (by decide)) (by decide)
+  exact ⟨by decide, by decide, (unlink_refines rfS rfCx ⟨0, 1⟩ rfl _ 3 h.2.1 h.2.2).2⟩
+
+/-- `C04.inv_reachable` at the red-black level, change-value included (corrected call order): `cstepF` / `crunF`
+    (Sib/RbRefineChange.lean) extend `cstep` by `lyd_change_node_value` — an instance of `x` that is not alone is
+    `lyd_unlink_tree`d (`Lyds.unlink`) and re-inserted (`Lyds.insert`), a lone one is changed in place and its one-node tree,
+    if any, keeps its shape.  For EVERY history admitted by `C04.inv_reachable`: same sibling lists, canonical, and the
+    concrete tree lists exactly the instances of `x` and is a valid red-black tree -/
+theorem inv_reachable_rb_change (S : Schema) (cx : Cx) (x : SRef) (hx : (S x).sorted = true) (ops : List Op) (c : CSibs)
+    (h : Inv S cx c.sibs) (href : LydsOk c.lyds (block x c.sibs.nodes)) (hok : HistOk S cx true c.sibs ops) :
+    (crunF S cx x c ops).sibs = runOps S cx true c.sibs ops ∧
+    Inv S cx (crunF S cx x c ops).sibs ∧
+    LydsOk (crunF S cx x c ops).lyds (block x (crunF S cx x c ops).sibs.nodes) :=
+  ⟨crunF_sibs S cx x ops c, crunF_ok S cx x hx ops c h hok href⟩
+
+/-- non-vacuity (audit): `rfOps` followed by two change-value ops — the instance 5 (id 1, not alone) becomes 9 and moves behind 8
+    (unlink + insert in the tree), then, after two unlinks, the lone remaining instance is changed in place -/
+def rfOpsC : List Op := rfOps ++ [.change 1 (.int 9), .unlink 6, .unlink 5, .change 1 (.int 2)]
+
+example : let c := crunF rfS rfCx ⟨0, 1⟩ ⟨⟨[], none⟩, Lyds.empty⟩ (rfOps ++ [.change 1 (.int 9)])
+    (inorder c.lyds.tree).map (·.id) = [6, 5, 1] :=
+  by decide
+
+example : let c := crunF rfS rfCx ⟨0, 1⟩ ⟨⟨[], none⟩, Lyds.empty⟩ rfOpsC
+    c.sibs.nodes.map (·.id) = [4, 8, 1] ∧ (inorder c.lyds.tree).map (·.key) = [.int 2] ∧
+    Inv rfS rfCx c.sibs ∧ LydsOk c.lyds (block ⟨0, 1⟩ c.sibs.nodes) :=
+  ⟨by decide, by decide,
+   (inv_reachable_rb_change rfS rfCx ⟨0, 1⟩ rfl rfOpsC ⟨⟨[], none⟩, Lyds.empty⟩ (C04.inv_init _ _ (by decide))
+     ⟨rfl, ⟨trivial, trivial, rfl⟩, Or.inl ⟨rfl, Nat.zero_le _⟩⟩ (C04.histOkB_sound (by decide))).2⟩
+
+/-! ## `lyds_merge`: a whole (leaf-)list moved onto the instances already present (Sib/RbMerge.lean)
+
+`mergeTree gt dst dl src sl`: `dl` / `sl` = destination / source instances in sibling order, `dst` / `src` = their trees (`nil` =
+none).  Source without tree (`lyds_merge_nodes1`): its instances are inserted in sibling order (into the tree built from
+the lone destination instance if there is none).  Source tree only (`lyds_merge_nodes2`): the DESTINATION instances are
+inserted into the SOURCE tree, which becomes the destination's.  Both (`lyds_merge_nodes3`): the source tree is taken apart
+in `rb_iter_*` order (post-order, `iterOrder`) and each node re-inserted into the destination tree. -/
+
+/-- whichever of the three paths runs: the tree the destination leader ends up with is a valid red-black tree, and its
+    in-order sequence — the sibling order the data nodes are linked in — is sorted and consists of exactly the instances of
+    both lists -/
+theorem lyds_merge_inorder {α : Type} (gt : α → α → Bool)
+    (total : ∀ a b, gt a b = false ∨ gt b a = false)
+    (trans : ∀ a b c, gt a b = false → gt b c = false → gt a c = false)
+    (dst : T α) (dl : List α) (src : T α) (sl : List α)
+    (hd : IsRB dst) (hdl : (dst = T.nil ∧ dl.length = 1) ∨ inorder dst = dl) (hds : dl.Pairwise (fun a b => gt a b = false))
+    (hs : IsRB src) (hsl : src = T.nil ∨ inorder src = sl) (hss : sl.Pairwise (fun a b => gt a b = false)) :
+    IsRB (mergeTree gt dst dl src sl) ∧
+    (inorder (mergeTree gt dst dl src sl)).Pairwise (fun a b => gt a b = false) ∧
+    (inorder (mergeTree gt dst dl src sl)).Perm (dl ++ sl) :=
+  mergeTree_ok gt total trans dst dl src sl hd hdl hds hs hsl hss
+
+/-- non-vacuity (audit): both sides with a tree (`lyds_merge_nodes3`: 2, 4, 6 leave the source tree in the order 2, 6, 4), a lone
+    destination instance under a source tree (`nodes2`), and a tree-less source (a duplicate) onto a tree (`nodes1`) -/
+def mgD : T Int := [1, 5, 9].foldl (fun t x => Rb.insert (fun d y => decide (d > y)) x t) T.nil
+def mgS : T Int := [2, 4, 6].foldl (fun t x => Rb.insert (fun d y => decide (d > y)) x t) T.nil
+
+example : iterOrder mgS = [2, 6, 4] ∧
+    inorder (mergeTree (fun d y => decide (d > y)) mgD [1, 5, 9] mgS [2, 4, 6]) = [1, 2, 4, 5, 6, 9] ∧
+    inorder (mergeTree (fun d y => decide (d > y)) T.nil [5] mgS [2, 4, 6]) = [2, 4, 5, 6] ∧
+    inorder (mergeTree (fun d y => decide (d > y)) mgD [1, 5, 9] T.nil [2, 4, 6]) = [1, 2, 4, 5, 6, 9] := by decide
+
+example : IsRB (mergeTree (fun d y => decide (d > y)) mgD [1, 5, 9] mgS [2, 4, 6]) :=
+  (lyds_merge_inorder (fun (d y : Int) => decide (d > y)) (by intro a b; simp; omega) (by intro a b c; simp; omega)
+    mgD [1, 5, 9] mgS [2, 4, 6] (rb_reachable _ _) (Or.inr (by decide)) (by decide) (rb_reachable _ _) (Or.inr (by decide))
+    (by decide)).1
 
 end LyModel.Props.C04Rb
